@@ -5,6 +5,7 @@ import (
 	"go/ast"
 	"go/token"
 	"go/types"
+	"sort"
 	"strings"
 )
 
@@ -360,7 +361,9 @@ func (e *Engine) methodRecv(st *State, rv Value, sel *types.Selection, p token.P
 func (e *Engine) evArgs(c *ast.CallExpr, sig *types.Signature, st *State) []Value {
 	var args []Value
 	if len(c.Args) == 1 && sig.Params().Len() > 1 {
-		return e.evMulti(c.Args[0], st)
+		if _, isTuple := e.pk.Info.TypeOf(c.Args[0]).(*types.Tuple); isTuple {
+			return e.evMulti(c.Args[0], st)
+		}
 	}
 	np := sig.Params().Len()
 	for i, a := range c.Args {
@@ -707,6 +710,25 @@ func (e *Engine) applyContract(c *ast.CallExpr, fn *types.Func, ct *Contract, pk
 			e.assume("true", e.le(st.top, nt))
 			st.top = nt
 		}
+	} else if !ct.Pure {
+		m := e.calleeMods(fn)
+		if m.all {
+			e.havocAll(st)
+		} else {
+			var hs []string
+			for h := range m.heaps {
+				hs = append(hs, h)
+			}
+			sort.Strings(hs)
+			for _, h := range hs {
+				e.havocHeap(st, h)
+			}
+			if m.alloc {
+				nt := e.fresh("top", e.isort())
+				e.assume("true", e.le(st.top, nt))
+				st.top = nt
+			}
+		}
 	}
 	// results
 	var res []Value
@@ -760,26 +782,18 @@ func (e *Engine) callSite(name string) int {
 
 // resVarObj finds the injected `var result T` object of a contract.
 func (e *Engine) resVarObj(pk *Pkg, ct *Contract, name string) types.Object {
-	var found types.Object
-	if ct.Decl == nil || len(ct.Decl.Body.List) == 0 {
-		return nil
-	}
-	blk, ok := ct.Decl.Body.List[0].(*ast.BlockStmt)
-	if !ok || !pk.Injected[blk] {
-		return nil
-	}
-	for _, s := range blk.List {
+	for _, s := range ct.PreDecls {
 		if ds, ok := s.(*ast.DeclStmt); ok {
 			for _, sp := range ds.Decl.(*ast.GenDecl).Specs {
 				for _, id := range sp.(*ast.ValueSpec).Names {
 					if id.Name == name {
-						found = pk.Info.Defs[id]
+						return pk.Info.Defs[id]
 					}
 				}
 			}
 		}
 	}
-	return found
+	return nil
 }
 
 // ---------------- builtins ----------------
